@@ -1,6 +1,7 @@
 package sym
 
 import (
+	"os"
 	"fmt"
 	"go/constant"
 	"go/token"
@@ -723,6 +724,8 @@ func (cx *Ctx) globalObj(g *ssa.Global) *Object {
 
 var initMu sync.Mutex
 
+var debugForks = os.Getenv("VERIF_FORKS") != ""
+
 // initPackage executes the package initialiser symbolically (concretely, in fact) to obtain global values.
 func (cx *Ctx) initPackage(p *ssa.Package) {
 	if cx.initOwner() {
@@ -950,6 +953,9 @@ func (fx *FnExec) runFrom(fr *Frame, b *ssa.BasicBlock, start int, st *State, k 
 				return
 			}
 			fx.Paths++
+			if debugForks {
+				fmt.Fprintf(os.Stderr, "FORK %s %s cond-size=%d\n", FuncName(fr.Fn), fx.posOf(b.Instrs[len(b.Instrs)-1]), c.Size())
+			}
 			if fx.Paths > fx.Cx.MaxPaths {
 				panic(abortExec{"path cap exceeded"})
 			}
